@@ -82,10 +82,13 @@ func (p *Ptr) String() string {
 type Heap struct {
 	comps map[string]*Term
 	alloc *Term
+	// epoch names the last whole-heap havoc on this path ("" = function entry): a component
+	// first touched after such a havoc is a constant of that epoch, not the entry value
+	epoch string
 }
 
 func (h *Heap) clone() *Heap {
-	n := &Heap{comps: make(map[string]*Term, len(h.comps)), alloc: h.alloc}
+	n := &Heap{comps: make(map[string]*Term, len(h.comps)), alloc: h.alloc, epoch: h.epoch}
 	for k, v := range h.comps {
 		n.comps[k] = v
 	}
@@ -141,10 +144,13 @@ type Frame struct {
 	visits  map[*ssa.BasicBlock]int
 	pure    bool
 	pcAt    map[*ssa.BasicBlock]int
+	// snapshot taken when loop 0 of the unit was last entered at its head (spec function iter)
+	iterHeap  *Heap
+	iterCells map[*ssa.Alloc]*Term
 }
 
 func (f *Frame) clone() *Frame {
-	n := &Frame{fn: f.fn, depth: f.depth, pure: f.pure,
+	n := &Frame{fn: f.fn, depth: f.depth, pure: f.pure, iterHeap: f.iterHeap, iterCells: f.iterCells,
 		vals:    make(map[ssa.Value]*SV, len(f.vals)),
 		cells:   make(map[*ssa.Alloc]*Term, len(f.cells)),
 		loopVar: make(map[*ssa.BasicBlock]*Term, len(f.loopVar)),
